@@ -124,6 +124,8 @@ def _run(chk, tier, model_ok):
         if rr.kind == "ok" and len(out) == 2 and \
                 cppdrv.monotone_violations(cppdrv.parse_obs(out[0]), cppdrv.parse_obs(out[1])):
             chk.report_known(k)
+        elif rr.kind != "ok" and viewcorr.crash_key(rr, cmds[len(out)] if len(out) < len(cmds) else cmds[-1], c) == k["key"]:
+            chk.report_known(k)
     for case in cases:
         if len(chk.violations) >= 12:
             chk.extra["stopped_early"] = "12 violations reported; remaining cases not run"
@@ -132,14 +134,19 @@ def _run(chk, tier, model_ok):
         cmds = [s[0] for s in sweep]
 
         def on_crash(cmd, rr, case=case):
-            crash_list.append((case.name, cmd, viewcorr.crash_key(rr, cmd, case)))
+            key = viewcorr.crash_key(rr, cmd, case)
+            crash_list.append((case.name, cmd, key))
+            # a view that aborts instead of reporting does not report what the reference defines
+            chk.violation("input", {"module": case.text, "case": case.name, "command": cmd,
+                                    "observed": "%s: %s" % (rr.kind, (rr.err or "")[:1200]),
+                                    "expected": "an observation (the driver aborted: sanitizer report or "
+                                                "EMBOSS_CHECK; see also C04)"}, key=key)
         answers = viewcorr.run_surviving(case, cmds, on_crash, max_crashes=6)
         _check_case_outputs(chk, case, sweep, answers, stats)
         per_case.append((case, cmds, answers))
         if len(chk.cov["samples"]) < 4 and answers and answers[-1]:
             chk.sample({"case": case.name, "command": cmds[-1], "real": answers[-1][:300]})
-    # crashes belong to C04; here they only reduce coverage (and are reported in evidence)
-    chk.extra["sanitizer_or_check_aborts_skipped (C04's business)"] = [list(x) for x in crash_list[:10]]
+    chk.extra["sanitizer_or_check_aborts"] = [list(x) for x in crash_list[:10]]
     stats["crashed_commands"] = len(crash_list)
     tm["run_and_oracles_s"] = round(time.time() - t0, 1)
     t0 = time.time()
@@ -192,8 +199,8 @@ def _run(chk, tier, model_ok):
     chk.extra["generator"] = dist.as_dict()
     chk.extra["stats"] = dict(stats)
     chk.extra["cases"] = [c.name for c in cases]
-    chk.assumptions.append("driver crashes (sanitizer reports / CHECK aborts) are C04 violations, not C01's; "
-                           "the crashing command is skipped here")
+    chk.assumptions.append("a driver abort (sanitizer report / CHECK) is reported as a violation here too "
+                           "(no observation where the reference defines one) and is C04's main subject")
 
 
 def search(chk):
